@@ -308,8 +308,9 @@ class TextFormat:
         if tokenized.decimal:
             left_num_format, right_num_format = number_format.split('.', 1)
             decimals = len(right_num_format)
-            number_value = self._round_half_up(number_value, decimals)
-            left_side, right_side = f'{number_value:#{thousands}.{decimals}f}'.split('.')
+            number_value = number_value.quantize(
+                Decimal(f'1E-{decimals}'), rounding=ROUND_HALF_UP)
+            left_side, _, right_side = f'{number_value:{thousands}.{decimals}f}'.partition('.')
             right_side = right_side.rstrip('0')
         else:
             left_side = f'{int(number_value.quantize(Decimal(1), rounding=ROUND_HALF_UP)):{thousands}}'
@@ -326,13 +327,6 @@ class TextFormat:
             return f'{"".join(left[::-1])}.{right_side}'
         else:
             return ''.join(left[::-1])
-
-    @staticmethod
-    def _round_half_up(number_value, decimals):
-        """excel rounds the decimal rendering half away from zero, float formatting
-        rounds the binary value half to even: TEXT(0.125, "0.00") is 0.13"""
-        return float(number_value.quantize(
-            Decimal(f'1E-{decimals}'), rounding=ROUND_HALF_UP))
 
     def _number_token_converter(self, tokens, number, left_side=False):
         digits_iter = iter(number[::-1] if left_side else number)
